@@ -1,9 +1,10 @@
 (* Tri/ConvexModel.v — TriangulateConvex (alternating strip) satisfies the same
-   chain identity and count as ear clipping.  Positional sweep for every contour
-   length 3..200 (vm_compute) + naturality of the strip in the vertex names, which
-   lifts the sweep to arbitrary mesh indices. *)
+   chain identity and count as ear clipping: for ALL contour lengths, by induction on the
+   zig-zag (invariant: boundary(emitted) + path p_i..p_k + chord p_k->p_i = contour).
+   The older positional sweep for lengths 3..200 (vm_compute + naturality in the vertex
+   names) is kept as an independent example. *)
 From Coq Require Import ZArith List Bool Arith Lia.
-From MV Require Import Base.Chain Tri.EarClipDefs.
+From MV Require Import Base.Chain Tri.EarClipDefs Tri.EarClipModel Tri.EarClipInit.
 Import ListNotations.
 
 Definition tmap (f : Z -> Z) (t : tri) : tri := let '(a, b, c) := t in (f a, f b, f c).
@@ -108,6 +109,107 @@ Proof.
   - exists []. split; [reflexivity|]. split; [intros a b; reflexivity|reflexivity].
   - inversion HF as [|? ? Hp Hps]; subst. destruct (IH Hps) as (ts & Ht & Hc & Hl).
     destruct (convex_poly_contract p Hp) as (t & Hpt & Hpc & Hpl).
+    exists (t ++ ts). cbn [triangulateConvex]. unfold bind. rewrite Hpt, Ht. split; [reflexivity|]. split.
+    + intros a b. rewrite coef_boundaries_app, coef_contours_cons, Hpc, Hc. reflexivity.
+    + rewrite app_length. cbn [numVert fold_right length]. fold (numVert ps). lia.
+Qed.
+
+(* ------------------------------------------------------------------ *)
+(* the zig-zag strip for every length, by induction *)
+
+Local Open Scope Z_scope.
+
+Lemma convex_poly_unfold (p : list Z) : (1 <= length p)%nat ->
+  convex_poly p = convex_go (length p) p 0 (length p - 1) true [].
+Proof. destruct p; [cbn; lia|reflexivity]. Qed.
+
+Section Strip.
+Variable p : list Z.
+Let n := length p.
+Let pt (i : nat) : Z := nth i p 0.
+
+Definition pathc (i k : nat) (a b : Z) : Z :=
+  sumz (fun t => edge1 (pt (i + t)) (pt (i + t + 1)) a b) (k - i).
+
+Lemma pathc_left i k a b : (i < k)%nat -> pathc i k a b = edge1 (pt i) (pt (i + 1)) a b + pathc (i + 1) k a b.
+Proof.
+  intros H. unfold pathc. replace (k - i)%nat with (S (k - (i + 1))) by lia.
+  rewrite sumz_shift. rewrite !Nat.add_0_r. f_equal. apply sumz_ext. intros t _.
+  replace (i + S t)%nat with (i + 1 + t)%nat by lia. reflexivity.
+Qed.
+Lemma pathc_right i k a b : (i < k)%nat -> pathc i k a b = pathc i (k - 1) a b + edge1 (pt (k - 1)) (pt k) a b.
+Proof.
+  intros H. unfold pathc. replace (k - i)%nat with (S (k - 1 - i)) by lia. cbn [sumz].
+  replace (i + (k - 1 - i))%nat with (k - 1)%nat by lia. replace (k - 1 + 1)%nat with k by lia. reflexivity.
+Qed.
+Lemma pathc_nil i a b : pathc i i a b = 0.
+Proof. unfold pathc. rewrite Nat.sub_diag. reflexivity. Qed.
+
+Lemma nth_error_pt i : (i < n)%nat -> nth_error p i = Some (pt i).
+Proof. intros H. apply nth_error_nth'. exact H. Qed.
+
+Lemma convex_go_strip : forall fuel i k right acc,
+  (i <= k)%nat -> (k < n)%nat -> (k - i < fuel)%nat ->
+  exists ts, convex_go fuel p i k right acc = Some ts /\
+    (forall a b, coef (boundaries ts) a b =
+                 coef (boundaries acc) a b + pathc i k a b + edge1 (pt k) (pt i) a b) /\
+    length ts = (length acc + (k - i - 1))%nat.
+Proof.
+  induction fuel as [|f IH]; intros i k right acc Hik Hk Hf; [lia|].
+  cbn [convex_go]. destruct (Nat.ltb_spec (i + 1) k) as [Hlt|Hge].
+  - unfold bind.
+    assert (Hj : ((if right then i + 1 else k - 1) < n)%nat) by (destruct right; lia).
+    rewrite (nth_error_pt i ltac:(lia)), (nth_error_pt _ Hj), (nth_error_pt k Hk).
+    destruct right.
+    + destruct (IH (i + 1)%nat k false (acc ++ [(pt i, pt (i + 1), pt k)])) as (ts & E & Hc & Hl); try lia.
+      cbn [negb]. exists ts. split; [exact E|]. split.
+      * intros a b. rewrite Hc, coef_boundaries_app. unfold boundaries at 2. cbn [flat_map]. rewrite app_nil_r.
+        rewrite coef_boundary, (pathc_left i k a b ltac:(lia)).
+        rewrite (edge1_swap (pt (i + 1)) (pt k)). lia.
+      * rewrite Hl, app_length. cbn [length]. lia.
+    + destruct (IH i (k - 1)%nat true (acc ++ [(pt i, pt (k - 1), pt k)])) as (ts & E & Hc & Hl); try lia.
+      cbn [negb]. exists ts. split; [exact E|]. split.
+      * intros a b. rewrite Hc, coef_boundaries_app. unfold boundaries at 2. cbn [flat_map]. rewrite app_nil_r.
+        rewrite coef_boundary, (pathc_right i k a b ltac:(lia)).
+        rewrite (edge1_swap (pt i) (pt (k - 1))). lia.
+      * rewrite Hl, app_length. cbn [length]. lia.
+  - exists acc. split; [reflexivity|]. split; [|lia].
+    intros a b. assert (Hcase : k = i \/ k = (i + 1)%nat) by lia. destruct Hcase as [->| ->].
+    + rewrite pathc_nil, edge1_loop. lia.
+    + rewrite (pathc_left i (i + 1) a b ltac:(lia)), pathc_nil. rewrite (edge1_swap (pt i) (pt (i + 1))). lia.
+Qed.
+
+Lemma contour_pathc a b : (1 <= n)%nat ->
+  coef (contour p) a b = pathc 0 (n - 1) a b + edge1 (pt (n - 1)) (pt 0) a b.
+Proof.
+  intros Hn. rewrite (contour_sum p a b Hn). fold n.
+  remember (n - 1)%nat as m eqn:Em. assert (Hm : n = S m) by lia. rewrite Hm. cbn [sumz].
+  unfold pathc. rewrite Nat.sub_0_r. f_equal.
+  - apply sumz_ext. intros t Ht. destruct (Nat.eqb_spec (t + 1) (S m)); [lia|]. cbn [Nat.add]. reflexivity.
+  - destruct (Nat.eqb_spec (m + 1) (S m)); [reflexivity|lia].
+Qed.
+
+Lemma convex_poly_strip : (1 <= n)%nat ->
+  exists ts, convex_poly p = Some ts /\ ceq (boundaries ts) (contour p) /\ length ts = (n - 2)%nat.
+Proof.
+  intros Hn. rewrite (convex_poly_unfold p Hn).
+  destruct (convex_go_strip (length p) 0 (length p - 1) true []) as (ts & E & Hc & Hl); try (fold n; lia).
+  exists ts. split; [exact E|]. split.
+  - intros a b. rewrite Hc, (contour_pathc a b Hn). fold n. cbn [boundaries flat_map coef]. lia.
+  - rewrite Hl. cbn [length]. fold n. lia.
+Qed.
+End Strip.
+
+(* all contours of a polygon set, any sizes >= 1 (contours of 1 or 2 vertices yield no triangle) *)
+Theorem convex_strip_all : forall (polys : list (list Z)),
+  Forall (fun p => 3 <= length p)%nat polys ->
+  exists ts, triangulateConvex polys = Some ts /\ ceq (boundaries ts) (contours polys) /\
+             Z.of_nat (length ts) = Z.of_nat (numVert polys) - 2 * Z.of_nat (length polys).
+Proof.
+  induction polys as [|p ps IH]; intros HF.
+  - exists []. split; [reflexivity|]. split; [intros a b; reflexivity|reflexivity].
+  - inversion HF as [|? ? Hp Hps]; subst. destruct (IH Hps) as (ts & Ht & Hc & Hl).
+    destruct (convex_poly_strip p ltac:(lia)) as (t & Hpt & Hpc & Hpl).
     exists (t ++ ts). cbn [triangulateConvex]. unfold bind. rewrite Hpt, Ht. split; [reflexivity|]. split.
     + intros a b. rewrite coef_boundaries_app, coef_contours_cons, Hpc, Hc. reflexivity.
     + rewrite app_length. cbn [numVert fold_right length]. fold (numVert ps). lia.
